@@ -128,6 +128,47 @@ def one(spec, R, batch, stats, considered_mode):
         b.dispose()
 
 
+def one_raw(raw, R, batch, stats):
+    """a raw-source grammar with weights: whole programs created by the progressively-terminal decider (productions whose
+    refinement fails while they are built make create_node retry with the remaining alternatives)"""
+    from geneticengine.random.sources import NativeRandomSource
+    from geneticengine.representations.tree.treebased import TreeBasedRepresentation
+    b = GR.build_raw(raw)
+    try:
+        decl = b.oracle()
+        evs = []
+        g = None
+        try:
+            with time_limit(10):
+                g = extract_grammar(b.considered, b.start)
+            evs.append({"e": "weights", "k": 1, "exc": "", "impl": impl_grammar(g), "exact_same": True})
+        except Exception as e:
+            evs.append({"e": "weights", "k": 1, "exc": exc_name(e), "impl": {"expd": False}, "exact_same": True})
+        if g is not None:
+            def classes_in(v, acc):
+                if isinstance(v, (list, tuple)):
+                    for x in v:
+                        classes_in(x, acc)
+                elif type(v).__name__ in b.classes:
+                    acc.add(type(v).__name__)
+                    for fn in getattr(v, "__dataclass_fields__", {}):
+                        classes_in(getattr(v, fn), acc)
+                return acc
+            rs = NativeRandomSource(R.randint(0, 10 ** 6))
+            rep = TreeBasedRepresentation(g, ProgressivelyTerminalDecider(rs, g))
+            for _ in range(60):
+                try:
+                    with time_limit(5):
+                        ph = rep.genotype_to_phenotype(rep.create_genotype(rs))
+                except Exception:
+                    continue
+                evs.append({"e": "prog", "machine": "pt-creation", "classes": sorted(classes_in(ph, set()))})
+        batch.trace(f"{raw['id']}/raw", evs, {"k": "c19", "g": decl, "considered": "all-classes"})
+        stats["events"] += len(evs)
+    finally:
+        b.dispose()
+
+
 W_FIXED = [
     {"id": "w-fractions", "start": "E", "classes": [
         {"name": "E", "parent": "", "abstract": True, "fields": []},
@@ -197,6 +238,8 @@ def main():
             one(spec, R, batch, stats, "concrete-classes-only")
         if i % 2 == 0 or i < len(W_FIXED):
             one(spec, R, batch, stats, "nested-start")
+    for raw in GR.RAW_WEIGHTED:
+        one_raw(raw, R, batch, stats)
     batch.traces = finalize(batch.traces)
     paths = batch.shards(a.out, a.shards)
     write_summary(a.out, {"batches": paths, "traces": len(batch.traces), "events": stats["events"]})
